@@ -4,7 +4,8 @@
 //!   custom : `QmcAutoCorrelations::calculate_autocorrelation` with a table-lookup mapper, and
 //!            `QmcBondAutoCorrelations::calculate_bond_autocorrelation` (the mapper is `value_for_bond`);
 //!            order-one columns and columns `±2^k + small dyadic`, k in {10,14,17,20} (shift invariance:
-//!            the mean is far larger than the fluctuations)
+//!            the mean is far larger than the fluctuations) and columns scaled by 2^-60 / 2^-100 (scale
+//!            invariance: non-constant observables whose norm is far below f64::EPSILON)
 //!   vars   : `calculate_variable_autocorrelation` on a prescribed state sequence
 //!   prod   : `calculate_spin_product_autocorrelation`
 //!   temper : `ParallelTemperingAutocorrelations::calculate_autocorrelation` and
@@ -121,9 +122,17 @@ fn direct(samples: &[Vec<f64>]) -> Option<Vec<f64>> {
     }
     let mut out = vec![0.0; t];
     for i in 0..n {
-        let col: Vec<f64> = samples.iter().map(|r| r[i]).collect();
+        let mut col: Vec<f64> = samples.iter().map(|r| r[i]).collect();
         if col.iter().all(|x| *x == col[0]) {
             return None;
+        }
+        // the documented quantity is scale invariant: bring the column to order one by an exact power-of-two
+        // rescaling first, so that the evaluation below never works with tiny squares
+        let big = col.iter().fold(0.0f64, |a, x| a.max(x.abs()));
+        let e = big.log2().floor() as i32;
+        if e < -8 {
+            let sc = 2f64.powi(-e);
+            col.iter_mut().for_each(|x| *x *= sc);
         }
         let mean = col.iter().sum::<f64>() / t as f64;
         let y: Vec<f64> = col.iter().map(|x| x - mean).collect();
@@ -291,6 +300,29 @@ fn add_offsets(g: &mut SplitMix64, tab: &mut [Vec<f64>], first_k: u32) {
     }
 }
 
+const TINY_EXPS: [i32; 2] = [-60, -100];
+
+/// Scale a mix of columns (each with probability 1/2, at least one) by 2^-60 (~8.7e-19) or 2^-100 (~7.9e-31):
+/// non-constant observables whose Euclidean norm is far below f64::EPSILON. Exact in f64 (no subnormals: the
+/// squares are >= 2^-208) and exact for the rational model; the result must not change (scale invariance).
+fn make_tiny(g: &mut SplitMix64, tab: &mut [Vec<f64>], first: i32) {
+    let nobs = tab[0].len();
+    if nobs == 0 {
+        return;
+    }
+    let forced = g.below(nobs as u64) as usize;
+    let mut is_first = true;
+    for i in 0..nobs {
+        if i == forced || g.coin() {
+            let e = if is_first { first } else { *g.pick(&TINY_EXPS) };
+            is_first = false;
+            let sc = 2f64.powi(e);
+            tab.iter_mut().for_each(|r| r[i] *= sc);
+            stat(&format!("tiny_col_2^{}", e), 1);
+        }
+    }
+}
+
 fn gen_states(g: &mut SplitMix64, rows: usize, nvars: usize) -> Vec<Vec<bool>> {
     let mut st: Vec<Vec<bool>> = (0..rows).map(|_| (0..nvars).map(|_| g.coin()).collect()).collect();
     for v in 0..nvars {
@@ -356,6 +388,12 @@ fn mode_scripted(a: &Args, which: &str) {
                             run_table(false, t, f, &shifted);
                             run_table(true, t, f, &shifted);
                             stat("offset_cases", 2);
+                            // scale invariance at the other end: tiny non-constant columns next to order-one ones
+                            let mut tiny = table.clone();
+                            make_tiny(&mut g, &mut tiny, TINY_EXPS[(offset_case + nobs) % 2]);
+                            run_table(false, t, f, &tiny);
+                            run_table(true, t, f, &tiny);
+                            stat("tiny_cases", 2);
                         }
                     }
                     "vars" => {
@@ -507,6 +545,15 @@ fn mode_temper(a: &Args) {
         // half of the cases: offset columns (per graph, so a slot that receives another graph by a swap sees
         // a jump of the offset as a genuine, large fluctuation — also fine, still exact)
         let with_offset = ci % 2 == 1;
+        if ci % 4 == 2 {
+            // tiny columns, the same scale on every graph so that a slot's series stays tiny across swaps
+            let mut probe = vec![vec![1.0; nobs]];
+            make_tiny(&mut g, &mut probe, TINY_EXPS[(ci / 4) % 2]);
+            for tab in obs.iter_mut() {
+                tab.iter_mut().for_each(|r| r.iter_mut().zip(probe[0].iter()).for_each(|(x, o)| *x *= *o));
+            }
+            stat("temper_tiny_cases", 1);
+        }
         if with_offset {
             let k = OFFSET_EXPS[(ci / 2) % 4];
             if ci % 4 == 1 {
